@@ -48,7 +48,7 @@ def goodList : MdVal α → Bool
 /-- the per-category-homogeneous domain of the property: lists of non-empty text under the
 reserved hierarchical names, otherwise all text / all integer / all float / all boolean -/
 def colDomain (k : String) (col : List (MdVal α)) : Bool :=
-  if isSpecial k then col.all goodList
+  if isSpecial k then col.all goodList || (k == "taxonomy" && col.all MdVal.isText)   -- or flat 'a; b' texts
   else col.all MdVal.isText || col.all MdVal.isInt || col.all MdVal.isFloat || col.all MdVal.isBool
 
 /-- metadata of one axis is in the domain: present on no ID or on every ID with the same categories
@@ -382,18 +382,65 @@ theorem listFmt_good (c : Utf8) (k : String) (col : List (MdVal α)) (hne : col 
   unfold listFmt
   simp [h1, h2, hlens]
 
+/-- the column the hierarchical formatter lays out: flat texts are split first -/
+def taxCol (col : List (MdVal α)) : List (MdVal α) :=
+  if col.any MdVal.isText then splitCol col else col
+
+def listDs (c : Utf8) (col : List (MdVal α)) : DSet α :=
+  { kind := .vlenStr, data := .d2 (maxL (listLens col)) (col.map (listRow c (maxL (listLens col)))) }
+
+theorem splitCol_lists (col : List (MdVal α)) (h : col.all MdVal.isText = true) :
+    (splitCol col).all MdVal.isList = true := by
+  rw [List.all_eq_true] at h ⊢
+  intro v hv
+  obtain ⟨x, hx, rfl⟩ := List.mem_map.mp hv
+  have := h x hx
+  cases x <;> simp_all [MdVal.isText, MdVal.isList]
+
+/-- flat texts under `taxonomy`: split, then laid out like lists -/
+theorem listFmt_flat (c : Utf8) (col : List (MdVal α)) (hne : col ≠ [])
+    (hd : col.all MdVal.isText = true) :
+    listFmt c "taxonomy" col = .ok ("taxonomy", listDs c (splitCol col)) := by
+  have hnum : col.any MdVal.isNum = false := by
+    rw [List.all_eq_true] at hd
+    rw [List.any_eq_false]; intro x hx; have := hd x hx; cases x <;> simp_all [MdVal.isText, MdVal.isNum]
+  have hany : col.any MdVal.isText = true := by
+    cases col with
+    | nil => exact absurd rfl hne
+    | cons x xs => simp only [List.all_cons, Bool.and_eq_true] at hd; simp [hd.1]
+  have hlens : (listLens (splitCol col)).isEmpty = false := by
+    cases col with
+    | nil => exact absurd rfl hne
+    | cons x xs =>
+      simp only [List.all_cons, Bool.and_eq_true] at hd
+      cases x <;> simp_all [MdVal.isText, splitCol, listLens]
+  unfold listFmt
+  simp only [hnum, hany, hd, Bool.false_eq_true, if_false, if_true, beq_self_eq_true, Bool.and_self]
+  simp only [hlens, Bool.false_eq_true, if_false, listDs]
+
 /-- the dataset written for a category of the domain -/
 def fmtDs (c : Utf8) (k : String) (col : List (MdVal α)) : DSet α :=
-  if isSpecial k then
-    { kind := .vlenStr, data := .d2 (maxL (listLens col)) (col.map (listRow c (maxL (listLens col)))) }
+  if isSpecial k then listDs c (taxCol col)
   else { kind := atomKind col, data := .d1 (col.filterMap (scalarCell c)) }
+
+theorem taxCol_good (col : List (MdVal α)) (h : col.all goodList = true) : taxCol col = col := by
+  simp [taxCol, (goodList_not col h).2]
+
+theorem taxCol_flat (col : List (MdVal α)) (hne : col ≠ []) (h : col.all MdVal.isText = true) :
+    taxCol col = splitCol col := by
+  cases col with
+  | nil => exact absurd rfl hne
+  | cons x xs => simp only [List.all_cons, Bool.and_eq_true] at h; simp [taxCol, h.1]
 
 theorem fmtCategory_domain (c : Utf8) (k : String) (col : List (MdVal α)) (hne : col ≠ [])
     (hd : colDomain k col = true) : fmtCategory c k col = .ok (sanitize k, fmtDs c k col) := by
   unfold fmtCategory fmtDs colDomain at *
   by_cases hs : isSpecial k = true
-  · simp only [hs, if_true] at hd ⊢
-    rw [listFmt_good c k col hne hd, special_sanitize k hs]
+  · simp only [hs, if_true, Bool.or_eq_true, Bool.and_eq_true, beq_iff_eq] at hd ⊢
+    rcases hd with hd | ⟨hk, hd⟩
+    · rw [listFmt_good c k col hne hd, special_sanitize k hs, taxCol_good col hd]; rfl
+    · subst hk
+      rw [listFmt_flat c col hne hd, special_sanitize _ hs, taxCol_flat col hne hd]
   · simp only [hs, if_false, Bool.false_eq_true] at hd ⊢
     exact generalFmt_atoms c k col hne hd
 
@@ -492,19 +539,62 @@ theorem listRow_length (c : Utf8) (col : List (MdVal α)) (v : MdVal α) (hv : v
 
 /-- the dataset of a category of the domain: one entry per ID, rectangular, entry `i` standing
 for value `i` -/
-theorem fmtDs_spec (c : Utf8) (hc : c.RT) (k : String) (col : List (MdVal α))
+theorem filter_padRow_parts (c : Utf8) (hc : c.RT) (w : Nat) (l : List String) :
+    (padRow (α := α) c w l).filter (fun x => x != .s c.empty) = (l.filter (fun p => p != "")).map (strCell c) := by
+  unfold padRow
+  rw [List.filter_append, List.filter_replicate]
+  simp only [bne_self_eq_false, Bool.false_eq_true, if_false, List.append_nil]
+  induction l with
+  | nil => rfl
+  | cons s ss ih =>
+    by_cases hs : s = ""
+    · subst hs
+      have : (strCell (α := α) c "" != Cell.s c.empty) = false := by simp [strCell, hc.encEmpty]
+      simp [this, ih]
+    · have h1 := strCell_ne_empty (α := α) c hc s hs
+      have h2 : (s != "") = true := by simpa using hs
+      simp [h1, h2, ih]
+
+theorem represents_flat (c : Utf8) (hc : c.RT) (w : Nat) (s : String) :
+    represents (α := α) c (.text s) (.vec (padRow c w (splitTax s))) = true := by
+  simp only [represents, Bool.and_eq_true]
+  refine ⟨padRow_allS c w _, ?_⟩
+  rw [filter_padRow_parts c hc w _, mapM_cellStr c hc]
+  exact okEq_ok _
+
+theorem allRep_flat (c : Utf8) (hc : c.RT) (w : Nat) (col : List (MdVal α)) (h : col.all MdVal.isText = true) :
+    allRep c col (((splitCol col).map (listRow c w)).map .vec) = true := by
+  induction col with
+  | nil => rfl
+  | cons x xs ih =>
+    simp only [List.all_cons, Bool.and_eq_true] at h
+    have ih' := ih h.2
+    cases x <;> simp [MdVal.isText] at h
+    rename_i s
+    simp only [splitCol, List.map_cons, allRep, Bool.and_eq_true, listRow] at ih' ⊢
+    exact ⟨represents_flat c hc w s, ih'⟩
+
+theorem fmtDs_spec (c : Utf8) (hc : c.RT) (k : String) (col : List (MdVal α)) (hne : col ≠ [])
     (hd : colDomain k col = true) :
     dsRect (fmtDs c k col) = true ∧ dsRows (fmtDs c k col) = col.length ∧
     ∃ rs, (fmtDs c k col).data.rowsOf = some rs ∧ allRep c col rs = true := by
   unfold colDomain at hd
   unfold fmtDs
   by_cases hs : isSpecial k = true
-  · simp only [hs, if_true] at hd ⊢
-    refine ⟨?_, by simp [dsRows], _, rfl, allRep_lists c hc _ col hd⟩
-    simp only [dsRect, List.all_eq_true, beq_iff_eq]
-    intro r hr
-    obtain ⟨v, hv, rfl⟩ := List.mem_map.mp hr
-    exact listRow_length c col v hv
+  · simp only [hs, if_true, Bool.or_eq_true, Bool.and_eq_true, beq_iff_eq] at hd ⊢
+    rcases hd with hd | ⟨_, hd⟩
+    · rw [taxCol_good col hd]
+      refine ⟨?_, by simp [dsRows, listDs], _, rfl, allRep_lists c hc _ col hd⟩
+      simp only [dsRect, listDs, List.all_eq_true, beq_iff_eq]
+      intro r hr
+      obtain ⟨v, hv, rfl⟩ := List.mem_map.mp hr
+      exact listRow_length c col v hv
+    · rw [taxCol_flat col hne hd]
+      refine ⟨?_, by simp [dsRows, listDs, splitCol], _, rfl, allRep_flat c hc _ col hd⟩
+      simp only [dsRect, listDs, List.all_eq_true, beq_iff_eq]
+      intro r hr
+      obtain ⟨v, hv, rfl⟩ := List.mem_map.mp hr
+      exact listRow_length c (splitCol col) v hv
   · simp only [hs, if_false, Bool.false_eq_true] at hd ⊢
     have hat := atomDomain_atoms col hd
     exact ⟨rfl, by simp [dsRows, filterMap_scalarCell_length c col hat], _, rfl, allRep_atoms c hc col hat⟩
@@ -584,12 +674,12 @@ theorem mdOK_mdTree (c : Utf8) (hc : c.RT) (ids : List Id) (md : Option (List (M
     constructor
     · intro nd hnd
       obtain ⟨k, hk, rfl⟩ := List.mem_map.mp hnd
-      obtain ⟨h1, h2, _⟩ := fmtDs_spec c hc k _ (hf.cols k hk)
+      obtain ⟨h1, h2, _⟩ := fmtDs_spec c hc k _ (by simp [colOf]) (hf.cols k hk)
       simp only [h1, h2, beq_iff_eq]
       simp only [colOf, List.length_map]; exact ⟨trivial, hn⟩
     · intro k hk
       rw [lookup_map_nodup sanitize (fun k => fmtDs c k (colOf (e0 :: es) k)) _ hf.sanNodup k hk]
-      obtain ⟨_, _, rs, hrs, hrep⟩ := fmtDs_spec c hc k _ (hf.cols k hk)
+      obtain ⟨_, _, rs, hrs, hrep⟩ := fmtDs_spec c hc k _ (by simp [colOf]) (hf.cols k hk)
       simp only [hrs, hrep]
 
 theorem idsDs_eq (c : Utf8) (ids : List Id) :
@@ -609,8 +699,8 @@ def axTree (c : Utf8) (ids : List Id) (md : Option (List (MdE α))) (gmd : List 
   { ids := some (strDs c ids), md := some (mdTree c md), gmd := some (gmdDsets c gmd), matrix := some (matTree cs) }
 
 theorem axGrp_ok (c : Utf8) (ids : List Id) (md : Option (List (MdE α))) (gmd : List (String × String × String))
-    (nnz : Nat) (cs : CS α) (hmd : mdDomain md = true) (hd : cs.data.length = nnz) (hi : cs.indices.length = nnz) :
-    axGrp c ids md gmd nnz cs = .ok (axTree c ids md gmd cs) := by
+    (bare : List (String × String)) (nnz : Nat) (cs : CS α) (hmd : mdDomain md = true) (hd : cs.data.length = nnz) (hi : cs.indices.length = nnz) :
+    axGrp c ids md gmd bare nnz cs = .ok (axTree c ids md (gmdAll gmd bare) cs) := by
   unfold axGrp matGrp
   simp only [mdDsets_ok c md hmd, hd, hi, and_self, if_true, idsDs_eq]
   rfl
@@ -645,8 +735,8 @@ def attrTree (dc : DateC δ) (t : Src α) (genBy : String) (date : Option δ) (n
 def written (c : Utf8) (dc : DateC δ) (t : Src α) (genBy : String) (date : Option δ) (now : δ)
     (csr csc : CS α) : H5 α :=
   { attrs := attrTree dc t genBy date now csr,
-    obs := some (axTree c t.obs t.omd t.ogmd csr),
-    samp := some (axTree c t.samp t.smd t.sgmd csc) }
+    obs := some (axTree c t.obs t.omd (gmdAll t.ogmd t.ogmdBare) csr),
+    samp := some (axTree c t.samp t.smd (gmdAll t.sgmd t.sgmdBare) csc) }
 
 section tn
 variable [Zero α] [DecidableEq α]
